@@ -1,6 +1,6 @@
 """C03 — time-window reads return exactly the intersecting events, newest first, limited."""
 from ..backends import BACKENDS, Store
-from ..gen import DAY_US, MAX_US, canon, dt_us, floor_ms, mk_dt, mk_event, rand_instant, rand_offset, td_us
+from ..gen import DAY_US, MAX_US, bucket_ids, canon, dt_us, floor_ms, mk_dt, mk_event, rand_instant, rand_offset, td_us
 from ..model import allen
 
 ID = "C03"
@@ -9,7 +9,7 @@ ANCHOR_FILES = ["aw_datastore/datastore.py", "aw_datastore/storages/memory.py", 
                 "aw_datastore/storages/peewee.py"]
 REQUIRED_COUNTERS = ["reads.memory", "reads.sqlite", "reads.peewee", "counts_checked", "clipped_events_checked"]
 TAU = 2000  # µs: "only events within about 2 ms of an edge may go either way"
-RULE = ("per case one store and one bucket holding 1-12 events (overlapping, nested, adjacent, identical, zero-length, "
+RULE = ("per case one store and one bucket (in 60 % of the cases next to a second bucket with a look-alike id that holds events at the very same instants) holding 1-12 events (overlapping, nested, adjacent, identical, zero-length, "
         "up to exactly 24 h long, events reaching a window from ~24 h before it) and ~25 windows (open on either "
         "side, zero-width, sub-millisecond, edges exactly on / 1 µs / 1 ms / 3 ms around event starts and ends, "
         "independent UTC offsets on both edges) × limits {-1, 0, 1, 2, n, n+1}; each window is read and counted; up to three "
@@ -83,7 +83,10 @@ def gen_case(rng, ctx):
         muts.append(dict(before=k, op=rng.choice(["insert", "delete", "replace", "replace_last"]), pick=rng.randrange(100),
                          ev=dict(ts=s, dur=rng.randrange(0, 12) * unit + rng.choice([0, 1, 999]), off=rand_offset(rng), data={"uid": 1000 + k}),
                          repeat=rng.randrange(0, k)))
-    return dict(backend=backend, events=evs, queries=qs, muts=muts)
+    # a neighbouring bucket (an id easily taken for this one's) holding events at the very same instants
+    names = bucket_ids(rng, 2)
+    return dict(backend=backend, events=evs, queries=qs, muts=muts, name=names[0],
+                neighbour=dict(name=names[1], when=rng.choice(["before", "after"])) if rng.random() < 0.6 else None)
 
 
 def judge_read(stored, q, got, count, viols, backend):
@@ -155,7 +158,19 @@ def run_case(case, ctx):
     backend = case["backend"]
     viols = []
     with Store(backend, ctx.tmp) as st:
-        b = st.ds.create_bucket("w", type="t", client="c", hostname="h")
+        nb = case.get("neighbour")
+        if nb and nb["when"] == "before":
+            st.ds.create_bucket(nb["name"], type="t", client="c", hostname="h")
+        b = st.ds.create_bucket(case.get("name", "w"), type="t", client="c", hostname="h")
+        if nb and nb["when"] == "after":
+            st.ds.create_bucket(nb["name"], type="t", client="c", hostname="h")
+        if nb:
+            other = [mk_event(dict(s, data={"neighbour": i})) for i, s in enumerate(case["events"])]
+            if other:
+                st.ds[nb["name"]].insert(other[: max(1, len(other) // 2)])
+            for e in other[max(1, len(other) // 2):]:
+                st.ds[nb["name"]].insert(e)
+            ctx.count("cases_with_a_neighbouring_bucket")
         evs = [mk_event(s) for s in case["events"]]
         half = len(evs) // 2
         b.insert(evs[:half])            # bulk
